@@ -138,7 +138,8 @@ def forest(ctx, task):
               lambda ch: {'k': 'bf', 'p': 'a', 'mode': 'ok', 'catch': False, 'ch': ch}]
     inners = [lambda ch: {'k': 'sb', 'mode': 'ok', 'catch': False, 'args': [1], 'ch': ch},
               lambda ch: {'k': 'bf', 'p': 'd/x', 'mode': 'ok', 'catch': False, 'ch': ch},
-              lambda ch: {'k': 'bf', 'p': 'd/y', 'mode': 'rb', 'catch': True, 'ch': ch}]
+              lambda ch: {'k': 'bf', 'p': 'd/y', 'mode': 'rb', 'catch': True, 'ch': ch},
+              lambda ch: {'k': 'sb', 'mode': 'rb', 'catch': True, 'args': [3], 'ch': ch}]
     mids = [None, lambda ch: {'k': 'sb', 'mode': 'ok', 'catch': False, 'args': [2], 'ch': ch},
             lambda ch: {'k': 'bf', 'p': 'd/e/z', 'mode': 'ok', 'catch': False, 'ch': ch}]
     for o in outers:
